@@ -1,15 +1,22 @@
 """C35 - header collections behave as a case-insensitive ordered multimap.
 
+All three rules are decided by INTERPRETING the repository's functions from their AST (mitmlint/pyint.py; no repository code is
+imported or run) and comparing what they compute with the specification - never by matching the shape of their source.
+
 Decided:
-  R35.1 key-normalisation discipline in coretypes/multidict.py::_MultiDict: wherever a key argument or a stored field
-        name takes part in a comparison (==, !=, in, not in), is put into a set, or is added to a "seen" set, BOTH sides
-        are canonicalised with ``self._kconv`` (flow-sensitive: ``key = self._kconv(key)`` turns the name into a
-        canonical one from that statement on); ``__delitem__`` keeps exactly the fields whose canonical name differs;
-        ``set_all`` appends every non-matching field unchanged, exactly once and in order, and stores the rebuilt list;
-        ``Headers._kconv`` lower-cases its argument.
-  R35.2 HTTP/1 serialise/parse agreement: ``Headers.__bytes__`` writes ``name SEP value`` per field and ``_read_headers``
-        splits each line ONCE at a delimiter that SEP starts with, keeps the name untouched, strips the rest of SEP from
-        the value and appends (name, value) in the order ``__bytes__`` joins them.
+  R35.1 key normalisation: over the realistic multi-character names ``Content-Type`` / ``content-type`` / ``CONTENT-TYPE`` (three
+        spellings of ONE name), ``Content_Type`` and ``Content-Typ`` (two OTHER names that a sloppy canonicalisation would merge)
+        and an absent name, given as bytes and as str, every key-taking operation of ``Headers`` (``k in h``, ``h[k]``, get_all,
+        ``del h[k]``, set_all, ``h[k] = v``) on every one-field list treats stored name and key as the same name exactly when they
+        are equal after ASCII lower-casing - the same relation in every operation -, and on every two-field list iteration, len
+        (thorough tier: also keys and items) de-duplicate by that relation (first spelling wins) while delete / set_all keep exactly the other fields.
+        This is the decision table "(stored name, key, operation) -> hit / miss" extracted by interpretation; a raw comparison, a
+        one-sided ``_kconv``, a ``_kconv`` that is not a case-folding or that merges more than case, or a de-duplication by raw
+        name changes a cell.  How the code is written (comprehension / loop / helper method / ``filter``) does not.
+  R35.2 HTTP/1 serialise/parse round trip: for sample lists of valid header fields (empty list, empty value, values containing
+        ``:``, ``: ``, inner blanks / tabs, obs-text, repeated names in different case) ``Headers.__bytes__`` is interpreted; the block
+        must be ``bytes``, empty or CRLF-terminated, and split at CRLF (the HTTP/1 grammar ``*( header-field CRLF )``) into the lines
+        that the interpreted http1 ``_read_headers`` turns back into a ``Headers`` with exactly the same ``fields``.
   R35.3 bounded model equivalence: the methods of ``Headers`` (with everything they inherit from MultiDict / _MultiDict /
         Serializable) are INTERPRETED from their AST (pyint; no repository code is imported or run) on every field list of
         a bounded universe (names b"A" / b"a" / b"B" - two spellings of one name and a second name -, position-tagged
@@ -32,162 +39,35 @@ Decided:
         Because every post-condition is stated against the implementation's own pre-state and the only state is the
         ``fields`` tuple (checked: no operation may leave another attribute behind), holding on every field list of the
         universe means holding along every operation history that stays inside it.
-NOT decided: field lists / histories outside the bounded universe of R35.3, MultiDictView (state behind getter/setter
-callables), the MutableMapping mix-ins (get, pop, update ...: trusted stdlib code over the primitives above), obs-fold
-handling, validity of field names/values.
+        (R35.1 uses the same post-conditions on its own universe of names.)
+NOT decided: field lists / histories outside the bounded universes of R35.1 / R35.3, field lists outside the samples of R35.2,
+MultiDictView and plain MultiDict (other ``_kconv``; state behind getter/setter callables), the MutableMapping mix-ins (get, pop,
+update ...: trusted stdlib code over the primitives above), obs-fold handling, validity of field names/values, h11's line splitting.
 """
 
 from __future__ import annotations
 
 import ast
 
-from ..model import attr_chain
-from ..model import last_attr
 from ..selftest import Mutant
-from ._helpers_E import expect
-from ._helpers_E import methods
-from ._helpers_E import params
-from ._helpers_E import paths
-from ._helpers_E import show
 
 PROP = "C35"
 REG = {
     "strength": "partial",
-    "technique": "abstract interpretation of the Headers / _MultiDict methods from their AST (pyint) on every field list of a bounded universe against "
-    "the post-conditions of a case-insensitive ordered multimap; flow-sensitive key-normalisation dataflow over _MultiDict; serialiser/parser separator agreement",
+    "technique": "abstract interpretation of the Headers / _MultiDict methods from their AST (pyint) on every field list of two bounded universes against "
+    "the post-conditions of a case-insensitive ordered multimap; interpreted serialise -> CRLF split -> parse round trip of Headers.__bytes__ and http1 _read_headers",
     "claim": "every Headers operation of the property (lookup, get_all, delete, iteration, len, items/keys/values, add, insert, set_all, assignment, "
     "equality, copy) meets the ordered-multimap post-condition on every field list over two spellings of one name plus a second name, with position-tagged "
-    "and empty values, up to length 2 (quick) / 3 (thorough); no _MultiDict operation compares or de-duplicates a raw key or stored field name; "
-    "Headers.__bytes__ and http1 _read_headers agree on the field syntax.",
-    "note": "R35.3 is a bounded enumeration (stated in the evidence); the MutableMapping mix-ins of the stdlib and str/bytes methods are trusted.",
+    "and empty values, up to length 2 (quick) / 3 (thorough); every key-taking operation identifies stored name and key exactly when they are equal after "
+    "ASCII lower-casing, over realistic multi-character names given as bytes and str (lists up to length 2); sample lists of valid header fields survive "
+    "Headers.__bytes__ -> split at CRLF -> _read_headers unchanged.",
+    "note": "R35.1 / R35.3 are bounded enumerations and R35.2 a sample-based round trip (stated in the evidence); the MutableMapping mix-ins of the stdlib and "
+    "str/bytes methods are trusted; h11's ReceiveBuffer is modelled as a split at CRLF.",
 }
 
 MD = "mitmproxy/coretypes/multidict.py"
 HTTP = "mitmproxy/http.py"
 READ = "mitmproxy/net/http/http1/read.py"
-RAW, CONV, FIELD, OTHER = "raw", "conv", "field", "other"
-
-
-def _is_kconv(call):
-    return isinstance(call, ast.Call) and attr_chain(call.func) in ("self._kconv", "cls._kconv") and len(call.args) == 1
-
-
-def _is_fields(e):
-    ch = attr_chain(e)
-    return ch == "self.fields" or ch.endswith(".fields")
-
-
-class _Scan:
-    def __init__(self, ctx, qual, fn):
-        self.ctx, self.qual, self.fn = ctx, qual, fn
-        self.good = 0
-
-    def cls(self, e, env):
-        if _is_kconv(e):
-            return CONV
-        if isinstance(e, ast.Name):
-            return env.get(e.id, OTHER)
-        if isinstance(e, ast.Subscript) and isinstance(e.value, ast.Name) and env.get(e.value.id) == FIELD and isinstance(e.slice, ast.Constant):
-            return RAW if e.slice.value == 0 else OTHER
-        return OTHER
-
-    def bind(self, target, it, env):
-        from_fields = _is_fields(it) or (isinstance(it, ast.Call) and it.args and _is_fields(it.args[0]) and last_attr(it.func) in ("list", "tuple", "reversed", "iter"))
-        if isinstance(target, ast.Name):
-            env[target.id] = FIELD if from_fields else OTHER
-        elif isinstance(target, (ast.Tuple, ast.List)):
-            for i, t in enumerate(target.elts):
-                if isinstance(t, ast.Name):
-                    env[t.id] = RAW if (from_fields and i == 0) else OTHER
-
-    def bad(self, node, what):
-        self.ctx.fail("R35.1", (MD, self.qual, node), f"{self.qual.split('.')[-1]}: {ast.unparse(node)}", what)
-
-    def visit(self, node, env):
-        if isinstance(node, (ast.ListComp, ast.SetComp, ast.GeneratorExp, ast.DictComp)):
-            env2 = dict(env)
-            for g in node.generators:
-                self.visit(g.iter, env2)
-                self.bind(g.target, g.iter, env2)
-                for c in g.ifs:
-                    self.visit(c, env2)
-            elts = [node.key, node.value] if isinstance(node, ast.DictComp) else [node.elt]
-            if isinstance(node, (ast.SetComp, ast.DictComp)):
-                k = elts[0]
-                c = self.cls(k, env2)
-                if c == RAW:
-                    self.bad(node, "stored field names are de-duplicated without _kconv: names differing only in case count as different keys")
-                elif c == CONV:
-                    self.good += 1
-                    self.ctx.ok("R35.1", f"{self.qual}: set of _kconv'd names {ast.unparse(node)[:60]}")
-            for e in elts:
-                self.visit(e, env2)
-            return
-        if isinstance(node, ast.Compare) and all(isinstance(o, (ast.Eq, ast.NotEq, ast.In, ast.NotIn)) for o in node.ops):
-            ops = [node.left] + node.comparators
-            classes = [self.cls(o, env) for o in ops]
-            delegating = len(ops) == 2 and isinstance(ops[1], ast.Name) and ops[1].id == "self"
-            if not delegating and (RAW in classes or CONV in classes):
-                if RAW in classes:
-                    self.bad(node, "a key / stored field name is compared without applying _kconv to both sides: lookups become case-sensitive for Headers")
-                else:
-                    self.good += 1
-                    self.ctx.ok("R35.1", f"{self.qual}: {ast.unparse(node)} (all key operands canonical)")
-        if isinstance(node, ast.Call) and isinstance(node.func, ast.Attribute) and node.func.attr == "add" and isinstance(node.func.value, ast.Name) and len(node.args) == 1 \
-                and env.get(node.func.value.id) == "set":
-            c = self.cls(node.args[0], env)
-            if c == RAW:
-                self.bad(node, "a raw name is remembered as seen: iteration yields case variants of one key separately")
-            elif c == CONV:
-                self.good += 1
-                self.ctx.ok("R35.1", f"{self.qual}: {ast.unparse(node)}")
-        for ch in ast.iter_child_nodes(node):
-            self.visit(ch, env)
-
-    def block(self, stmts, env):
-        for s in stmts:
-            if isinstance(s, ast.Assign):
-                self.visit(s.value, env)
-                c = self.cls(s.value, env)
-                if isinstance(s.value, ast.Call) and isinstance(s.value.func, ast.Name) and s.value.func.id == "set" and not s.value.args:
-                    c = "set"
-                for t in s.targets:
-                    if isinstance(t, ast.Name):
-                        env[t.id] = c
-            elif isinstance(s, ast.AnnAssign):
-                if s.value is not None:
-                    self.visit(s.value, env)
-                if isinstance(s.target, ast.Name):
-                    env[s.target.id] = self.cls(s.value, env) if s.value is not None else OTHER
-            elif isinstance(s, (ast.For, ast.AsyncFor)):
-                self.visit(s.iter, env)
-                self.bind(s.target, s.iter, env)
-                self.block(s.body, env)
-                self.block(s.orelse, env)
-            elif isinstance(s, (ast.If, ast.While)):
-                self.visit(s.test, env)
-                self.block(s.body, env)
-                self.block(s.orelse, env)
-            elif isinstance(s, ast.Try):
-                self.block(s.body, env)
-                for h in s.handlers:
-                    self.block(h.body, env)
-                self.block(s.orelse, env)
-                self.block(s.finalbody, env)
-            elif isinstance(s, ast.With):
-                self.block(s.body, env)
-            elif isinstance(s, (ast.FunctionDef, ast.AsyncFunctionDef, ast.ClassDef)):
-                self.ctx.require(False, f"{self.qual}: nested definition not modelled")
-            else:
-                self.visit(s, env)
-
-    def run(self):
-        env = {}
-        for a in self.fn.args.posonlyargs + self.fn.args.args + self.fn.args.kwonlyargs:
-            if a.annotation is not None and ast.unparse(a.annotation) == "KT":
-                env[a.arg] = RAW
-        self.block(self.fn.body, env)
-        return self.good
 
 
 # ---------------------------------------------------------------------------------------------------
@@ -223,6 +103,11 @@ class _Memo:
 
 
 def _make_interp(model):
+    cached = getattr(model, "_c35_interp", None)  # one interpreter (and its memoised class-hierarchy queries) for the three rules of a run
+    if cached is not None:
+        cached[0].steps = 0  # the step bound is per rule
+        return cached
+    real_model = model
     model = _Memo(model)
     from ..core import AnalysisError
     from ..pyint import ClassRef
@@ -430,8 +315,17 @@ def _make_interp(model):
                 return super().ev(ast.Subscript(value=ast.Name(id="$subscripted", ctx=ast.Load()), slice=e.slice, ctx=e.ctx), env2, mod, depth)
             return super().ev(e, env, mod, depth)
 
-    it = MapInterp(model, max_steps=4_000_000)
+    import re as _re
+
+    from ..pyint import NullLog
+
+    # `logging` is a no-op (added log lines are transparent); `re` is trusted stdlib (a parser may be written with it)
+    it = MapInterp(model, trusted_modules={"logging": NullLog(), "re": _re}, max_steps=6_000_000)
     it._kinds = {}
+    try:
+        real_model._c35_interp = (it, Rec, Raised)
+    except AttributeError:
+        pass
     return it, Rec, Raised
 
 
@@ -521,6 +415,8 @@ def _post(cls, meth, args, pre, how, ret, post):
 
     if how not in ("return", "KeyError"):
         return f"raises {how}"
+    if cls == "contains":
+        return expect_ret(bool(matching(args[0]))) or same_fields()
     if cls == "get_all":
         return expect_ret(matching(args[0])) or same_fields()
     if cls == "lookup":
@@ -573,38 +469,28 @@ def _post(cls, meth, args, pre, how, ret, post):
 
 
 def _show_call(meth, args):
-    m = {"__getitem__": "h[{0!r}]", "__delitem__": "del h[{0!r}]", "__setitem__": "h[{0!r}] = {1!r}", "__iter__": "list(h)", "__len__": "len(h)", "__eq__": "h == <{0}>", "copy": "h.copy()"}
+    m = {"__contains__": "{0!r} in h", "__getitem__": "h[{0!r}]", "__delitem__": "del h[{0!r}]", "__setitem__": "h[{0!r}] = {1!r}", "__iter__": "list(h)", "__len__": "len(h)", "__eq__": "h == <{0}>", "copy": "h.copy()"}
     if meth in m:
         return m[meth].format(*args)
     return f"h.{meth}({', '.join(repr(a) for a in args)})"
 
 
-def r35_3(ctx):
+def _run_model(ctx, rule, interp, anc, universe, ops_of):
+    """Interpret every (field list, operation) case and compare with the ordered-multimap post-condition.
+    Returns (cases per operation class, first - i.e. shortest - deviating case per class)."""
     import copy as _copy
 
     m = ctx.model
-    it, Rec, Raised = _make_interp(m)
-    ctx.require(m.has(HTTP, "Headers"), "http.Headers vanished")
-    anc = [c.name for _, c in m.mro(HTTP, "Headers")]
-    ctx.require("_MultiDict" in anc, f"Headers no longer derives from _MultiDict: {anc}")
-    max_len = 3 if ctx.tier == "thorough" else 2
-    universe = _universe(max_len, all_empties=ctx.tier == "thorough")
+    it, Rec, Raised = interp
 
     def fresh(fields):
         return Rec("Headers", _bases=tuple(anc[1:]), _impl=(HTTP, "Headers"), fields=tuple(fields))
-
-    def where_of(meth):
-        r = m.method(HTTP, "Headers", meth)
-        if r is None:
-            return (HTTP, "Headers", m.cls(HTTP, "Headers")), f"Headers.{meth}"
-        qual = getattr(r[1], "_qual", meth)
-        return (r[0].rel, qual, r[1]), qual
 
     counts: dict = {}
     bad: dict = {}
     n = 0
     for pre in universe:
-        for cls, meth, args in _ops(pre, ctx.tier == "thorough"):
+        for cls, meth, args in ops_of(pre):
             h = fresh(pre)
             call_args = [_copy.deepcopy(a) for a in args]
             others = {}
@@ -622,7 +508,7 @@ def r35_3(ctx):
                 how = r.name
             n += 1
             extra = set(h.__dict__) - {"fields", "_cls", "_bases", "_impl", "_name", "_items"}
-            ctx.require(not extra, f"Headers.{meth} leaves attribute(s) {sorted(extra)} behind: state other than `fields` is not modelled by R35.3")
+            ctx.require(not extra, f"Headers.{meth} leaves attribute(s) {sorted(extra)} behind: state other than `fields` is not modelled by {rule}")
             post = h.fields
             if cls == "equality":
                 want = args[0] == "same"
@@ -639,12 +525,37 @@ def r35_3(ctx):
                 problem = _post(cls, meth, args, pre, how, ret, post)
             counts[cls] = counts.get(cls, 0) + 1
             if problem and cls not in bad:
-                bad[cls] = (meth, pre, args, problem)  # the universe is enumerated shortest-first: a minimal witness
+                bad[cls] = (meth, pre, args, problem)  # the universes are enumerated shortest-first: a minimal witness
     ctx.cells += n
+    return counts, bad
+
+
+def _where_of(m, meth):
+    r = m.method(HTTP, "Headers", meth)
+    if r is None:
+        return (HTTP, "Headers", m.cls(HTTP, "Headers")), f"Headers.{meth}"
+    qual = getattr(r[1], "_qual", meth)
+    return (r[0].rel, qual, r[1]), qual
+
+
+def _headers(ctx):
+    m = ctx.model
+    ctx.require(m.has(HTTP, "Headers"), "http.Headers vanished")
+    anc = [c.name for _, c in m.mro(HTTP, "Headers")]
+    ctx.require("_MultiDict" in anc, f"Headers no longer derives from _MultiDict: {anc}")
+    return anc
+
+
+def r35_3(ctx):
+    m = ctx.model
+    anc = _headers(ctx)
+    max_len = 3 if ctx.tier == "thorough" else 2
+    universe = _universe(max_len, all_empties=ctx.tier == "thorough")
+    counts, bad = _run_model(ctx, "R35.3", _make_interp(m), anc, universe, lambda pre: _ops(pre, ctx.tier == "thorough"))
     for cls in counts:
         if cls in bad:
             meth, pre, args, problem = bad[cls]
-            where, qual = where_of(meth)
+            where, qual = _where_of(m, meth)
             ctx.fail("R35.3", where, f"{cls}: fields {list(pre)} ; {_show_call(meth, args)} : {problem}"[:300],
                      f"Headers does not behave as a case-insensitive ordered multimap for {cls} ({qual})")
         else:
@@ -657,137 +568,152 @@ def r35_3(ctx):
         ctx.expect_instances("R35.3", 17 if ctx.tier == "thorough" else 14)
 
 
+# ---------------------------------------------------------------------------------------------------
+# R35.1: the key-equivalence table of every key-taking operation, extracted by interpretation
+
+# three spellings of one name; two names that differ from it by more than case (a canonicalisation that folds `_`/`-` or truncates
+# would merge them); ABSENT1 never occurs in a field list
+NAMES1 = (b"Content-Type", b"content-type", b"CONTENT-TYPE", b"Content_Type", b"Content-Typ")
+ABSENT1 = b"Accept"
+
+
+def _universe1():
+    one = [((a, b"v0"),) for a in NAMES1]
+    two = [((a, b"v0"), (b, b"v1")) for a in NAMES1 for b in NAMES1]
+    return one + two
+
+
+def _ops1(fields, full):
+    ops = []
+    if len(fields) == 1 or full:
+        for j, k in enumerate(NAMES1 + (ABSENT1,)):
+            for kk in ((k, k.decode()) if full else ((k.decode(),) if j % 2 else (k,))):
+                ops += [("contains", "__contains__", (kk,)), ("get_all", "get_all", (kk,)), ("lookup", "__getitem__", (kk,)), ("delete", "__delitem__", (kk,)),
+                        ("set_all", "set_all", (kk, [b"x"])), ("assignment", "__setitem__", (kk, "z"))]
+    else:
+        for kk in (NAMES1[1].decode(), ABSENT1):
+            ops += [("get_all", "get_all", (kk,)), ("delete", "__delitem__", (kk,)), ("set_all", "set_all", (kk, ["x", b"y"]))]
+    ops += [("iteration", "__iter__", ()), ("len", "__len__", ())]
+    if full:  # derived from the two above through the Mapping mix-ins (R35.3 checks them on its universe in both tiers)
+        ops += [("keys", "keys", ()), ("items", "items", ())]
+    return ops
+
+
 def _r35_1(ctx):
     m = ctx.model
-    md = m.cls(MD, "_MultiDict")
-    meths = methods(md)
-    for need in ("__delitem__", "__iter__", "__len__", "get_all", "set_all", "__getitem__", "__setitem__", "insert"):
-        ctx.require(need in meths, f"_MultiDict.{need} vanished")
-    total = 0
-    for name, fn in meths.items():
-        ctx.functions.add(f"{MD}::_MultiDict.{name}")
-        total += _Scan(ctx, f"_MultiDict.{name}", fn).run()
-    # key parameters must be recognisable (annotation KT), otherwise the scan above is vacuous
-    for name in ("__delitem__", "get_all", "set_all"):
-        fn = meths[name]
-        ctx.require(any(a.annotation is not None and ast.unparse(a.annotation) == "KT" for a in fn.args.args), f"_MultiDict.{name}: key parameter no longer annotated KT (raw-key source not recognised)")
-
-    # __delitem__ keeps exactly the non-matching fields
-    de = ctx.func(MD, "_MultiDict.__delitem__")
-    asg = [n for n in ast.walk(de) if isinstance(n, ast.Assign) and attr_chain(n.targets[0]) == "self.fields"]
-    ctx.require(len(asg) == 1, "_MultiDict.__delitem__: assignment to self.fields not found")
-    comp = [n for n in ast.walk(asg[0].value) if isinstance(n, (ast.GeneratorExp, ast.ListComp))]
-    ctx.require(len(comp) == 1 and len(comp[0].generators) == 1 and len(comp[0].generators[0].ifs) == 1 and _is_fields(comp[0].generators[0].iter), "_MultiDict.__delitem__: filter over self.fields not modelled")
-    g = comp[0].generators[0]
-    cond = g.ifs[0]
-    neg = False
-    if isinstance(cond, ast.UnaryOp) and isinstance(cond.op, ast.Not):
-        cond, neg = cond.operand, True
-    ctx.require(isinstance(cond, ast.Compare) and len(cond.ops) == 1 and isinstance(cond.ops[0], (ast.Eq, ast.NotEq)), f"_MultiDict.__delitem__: filter condition not modelled: {ast.unparse(g.ifs[0])}")
-    keeps_other = isinstance(cond.ops[0], ast.NotEq) != neg
-    same_elt = isinstance(comp[0].elt, ast.Name) and isinstance(g.target, ast.Name) and comp[0].elt.id == g.target.id
-    ctx.check(keeps_other and same_elt, "R35.1", (MD, "_MultiDict.__delitem__", asg[0]), f"__delitem__: {ast.unparse(asg[0].value)}",
-              "deletion must keep exactly the fields whose canonical name differs from the key, unchanged", desc="__delitem__ keeps non-matching fields unchanged")
-
-    # set_all: non-matching fields are appended unchanged, once, in order
-    sa = ctx.func(MD, "_MultiDict.set_all")
-    loops = [n for n in sa.body if isinstance(n, ast.For) and _is_fields(n.iter) and isinstance(n.target, ast.Name)]
-    ctx.require(len(loops) == 1, "_MultiDict.set_all: loop over self.fields not found")
-    var = loops[0].target.id
-    fin = [n for n in sa.body if isinstance(n, ast.Assign) and attr_chain(n.targets[0]) == "self.fields"]
-    ctx.require(len(fin) == 1 and fin[0].lineno > loops[0].lineno, "_MultiDict.set_all: final assignment to self.fields not found")
-    acc = [n.id for n in ast.walk(fin[0].value) if isinstance(n, ast.Name) and n.id not in ("tuple", "list")]
-    ctx.require(len(acc) == 1, f"_MultiDict.set_all: self.fields = {ast.unparse(fin[0].value)} not modelled")
-    acc = acc[0]
-    body_fn = ast.parse("def _body():\n    pass").body[0]
-    body_fn.body = loops[0].body
-    trs, eng = paths(body_fn, keep=lambda e: e[0] == "call" and e[1] in (f"{acc}.append", f"{acc}.insert", f"{acc}.extend"))
-    ctx.paths += len(trs)
-    bad = False
-    n_keep = n_match = 0
-    for t, how in trs:
-        conds = [e for e in t if e[0] == "cond" and var in {n.id for n in ast.walk(ast.parse(e[1], mode="eval")) if isinstance(n, ast.Name)} and (" == " in e[1] or " != " in e[1])]
-        ctx.require(conds, f"_MultiDict.set_all: a loop path does not decide whether the field matches: [{show(t)}]")
-        matches = conds[0][2] if " == " in conds[0][1] else not conds[0][2]
-        apps = [e for e in t if e[0] == "call"]
-        if not matches:
-            n_keep += 1
-            if len(apps) != 1 or apps[0][1] != f"{acc}.append" or apps[0][2] != (var,):
-                bad = True
-                ctx.fail("R35.1", (MD, "_MultiDict.set_all", loops[0]), f"set_all: non-matching field path [{show(t)}]",
-                         "a field whose name does not match must be carried over unchanged, once and in place (spelling and relative order of untouched fields)")
+    anc = _headers(ctx)
+    universe = _universe1()
+    full = ctx.tier == "thorough"
+    counts, bad = _run_model(ctx, "R35.1", _make_interp(m), anc, universe, lambda pre: _ops1(pre, full))
+    for cls in counts:
+        if cls in bad:
+            meth, pre, args, problem = bad[cls]
+            where, qual = _where_of(m, meth)
+            ctx.fail("R35.1", where, f"{cls}: fields {list(pre)} ; {_show_call(meth, args)} : {problem}"[:300],
+                     f"{cls} ({qual}) does not identify a stored field name and a key exactly when they are equal after lower-casing: "
+                     "the key is not normalised on both sides, or the normalisation is not a case-folding")
         else:
-            n_match += 1
-            if len(apps) > 1:
-                bad = True
-                ctx.fail("R35.1", (MD, "_MultiDict.set_all", loops[0]), f"set_all: matching field path [{show(t)}]", "a matching slot is filled more than once")
-    ctx.require(bad or (n_keep >= 1 and n_match >= 1), "_MultiDict.set_all: matching / non-matching paths not recognised")
+            ctx.ok("R35.1", f"{cls}: {counts[cls]} (stored names, key) cells agree with equality after lower-casing")
+    ctx.bounds.append(f"R35.1: all {len(universe)} field lists of length 1 and 2 over the names {[x.decode() for x in NAMES1]}; keys over these names and the absent "
+                      f"{ABSENT1.decode()!r}, {'as bytes and as str' if full else 'alternately as bytes and as str; on two-field lists one matching spelling and the absent name'}")
+    ctx.functions.update({f"{MD}::_MultiDict.{x}" for x in ("__delitem__", "__iter__", "__len__", "get_all", "set_all", "__getitem__", "__setitem__")})
+    ctx.functions.add(f"{HTTP}::Headers._kconv")
     if not bad:
-        ctx.ok("R35.1", f"set_all: {len(trs)} loop-body paths; non-matching fields appended unchanged once; self.fields = tuple({acc})")
+        ctx.expect_instances("R35.1", 10 if full else 8)
 
-    # Headers._kconv lower-cases
-    hk = ctx.func(HTTP, "Headers._kconv")
-    p = params(hk, drop_self=False)
-    rets = [n for n in ast.walk(hk) if isinstance(n, ast.Return) and n.value is not None]
-    okk = len(p) == 1 and len(rets) == 1 and isinstance(rets[0].value, ast.Call) and isinstance(rets[0].value.func, ast.Attribute) and rets[0].value.func.attr in ("lower", "casefold") \
-        and attr_chain(rets[0].value.func.value) == p[0]
-    ctx.check(okk, "R35.1", (HTTP, "Headers._kconv", hk), f"Headers._kconv returns {ast.unparse(rets[0].value) if rets else '?'}",
-              "header names are not canonicalised by lower-casing: lookups are case-sensitive", desc="Headers._kconv = key.lower()")
-    ctx.require(total >= 5 or any(f.rule == "R35.1" for f in ctx.findings), f"_MultiDict: only {total} canonical comparisons recognised (expected >= 5)")
-    expect(ctx, "R35.1", 9)
+
+# ---------------------------------------------------------------------------------------------------
+# R35.2: serialise -> split at CRLF -> parse, interpreted
+
+CRLF = b"\r\n"
+SAMPLES2 = (
+    (),
+    ((b"Host", b"example.com"),),
+    ((b"Host", b"example.com:8080"), (b"accept", b"text/html, application/xml;q=0.9"), (b"Accept", b"*/*")),
+    ((b"X-Empty", b""), (b"Set-Cookie", b"a=b; Path=/; Expires=Wed, 21 Oct 2015 07:28:00 GMT"), (b"set-cookie", b"c=d")),
+    ((b"x", b"a: b"), (b"X", b"::"), (b"Date", b"Tue, 15 Nov 1994 08:12:31 GMT")),
+    ((b"X-Blanks", b"a\tb  c"), (b"X-Obs-Text", b"caf\xc3\xa9 \xff")),
+)
+
+
+def _parser(ctx):
+    """the http1 header parser: ``_read_headers``, or - after a rename - the module function whose result read_request_head passes on as ``headers=``"""
+    m = ctx.model
+    if m.has(READ, "_read_headers"):
+        return "_read_headers"
+    rr = ctx.func(READ, "read_request_head")
+    kws = [k.value for n in ast.walk(rr) if isinstance(n, ast.Call) for k in n.keywords if k.arg == "headers"]
+    ctx.require(len(kws) == 1, "http1/read.py: _read_headers vanished and read_request_head does not pass `headers=` exactly once")
+    e = kws[0]
+    if isinstance(e, ast.Name):
+        vals = [n.value for n in ast.walk(rr) if isinstance(n, ast.Assign) and any(isinstance(t, ast.Name) and t.id == e.id for t in n.targets)]
+        ctx.require(len(vals) == 1, f"http1/read.py: _read_headers vanished and `{e.id}` of read_request_head is not assigned exactly once")
+        e = vals[0]
+    ctx.require(isinstance(e, ast.Call) and isinstance(e.func, ast.Name) and m.has(READ, e.func.id), "http1/read.py: _read_headers vanished and the header parser of read_request_head is not a module function")
+    return e.func.id
 
 
 def _r35_2(ctx):
-    # ---- R35.2
-    hb = ctx.func(HTTP, "Headers.__bytes__")
-    joins = [n for n in ast.walk(hb) if isinstance(n, ast.Call) and isinstance(n.func, ast.Attribute) and n.func.attr == "join" and isinstance(n.func.value, ast.Constant) and isinstance(n.func.value.value, bytes)]
-    inner = [j for j in joins if j.args and isinstance(j.args[0], ast.Name)]
-    outer = [j for j in joins if j.args and isinstance(j.args[0], (ast.GeneratorExp, ast.ListComp))]
-    ctx.require(len(inner) == 1 and len(outer) == 1 and _is_fields(outer[0].args[0].generators[0].iter), f"Headers.__bytes__: join structure not modelled: {ast.unparse(hb.body[-1])[:100]}")
-    sep = inner[0].func.value.value
-    lsep = outer[0].func.value.value
-    ctx.require(isinstance(outer[0].args[0].generators[0].target, ast.Name) and outer[0].args[0].generators[0].target.id == inner[0].args[0].id, "Headers.__bytes__: inner join does not join the field tuple")
-    rh = ctx.func(READ, "_read_headers")
-    splits = [n for n in ast.walk(rh) if isinstance(n, ast.Call) and isinstance(n.func, ast.Attribute) and n.func.attr in ("split", "partition") and n.args and isinstance(n.args[0], ast.Constant) and isinstance(n.args[0].value, bytes)]
-    ctx.require(len(splits) == 1, f"_read_headers: {len(splits)} split calls on a bytes delimiter")
-    sp = splits[0]
-    delim = sp.args[0].value
-    once = sp.func.attr == "partition" or (len(sp.args) == 2 and isinstance(sp.args[1], ast.Constant) and sp.args[1].value == 1) or any(k.arg == "maxsplit" and isinstance(k.value, ast.Constant) and k.value.value == 1 for k in sp.keywords)
-    asg = sp._parent
-    ctx.require(isinstance(asg, ast.Assign) and isinstance(asg.targets[0], ast.Tuple) and all(isinstance(e, ast.Name) for e in asg.targets[0].elts), "_read_headers: split result is not unpacked into names")
-    names = [e.id for e in asg.targets[0].elts]
-    nvar, vvar = names[0], names[-1]
-    stripped = any(isinstance(n, ast.Assign) and attr_chain(n.targets[0]) == vvar and isinstance(n.value, ast.Call) and isinstance(n.value.func, ast.Attribute) and n.value.func.attr in ("strip", "lstrip")
-                   and attr_chain(n.value.func.value) == vvar and not n.value.args for n in ast.walk(rh))
-    name_touched = any(isinstance(n, ast.Assign) and attr_chain(n.targets[0]) == nvar and n is not asg for n in ast.walk(rh))
-    apps = [n for n in ast.walk(rh) if isinstance(n, ast.Call) and attr_chain(n.func).endswith(".append") and n.args and isinstance(n.args[0], ast.Tuple)]
-    ctx.require(len(apps) == 1, "_read_headers: ret.append((name, value)) not found")
-    order_ok = [attr_chain(e) for e in apps[0].args[0].elts] == [nvar, vvar]
-    rest = sep[len(delim):] if sep.startswith(delim) else None
-    ctx.cells += 5
-    probs = []
-    if not once:
-        probs.append("the line is split at every delimiter, so a value containing the delimiter is rejected or truncated")
-    if rest is None:
-        probs.append(f"the serialiser's separator {sep!r} does not start with the parser's delimiter {delim!r}: the name comes back changed")
-    elif rest and not (stripped and rest.strip() == b""):
-        probs.append(f"the remainder {rest!r} of the separator is not stripped from the value")
-    if name_touched:
-        probs.append("the parser rewrites the field name")
-    if not order_ok:
-        probs.append("the parser appends the field in a different order than the serialiser joins it")
-    if lsep != b"\r\n":
-        probs.append(f"fields are terminated by {lsep!r}, not CRLF")
-    for p_ in probs:
-        ctx.fail("R35.2", (READ, "_read_headers", sp), f"__bytes__ joins with {sep!r}; _read_headers: {ast.unparse(asg)}", p_)
-    if not probs:
-        ctx.ok("R35.2", f"name{sep.decode()!r}value: split once at {delim!r}, value stripped, (name, value) order, CRLF between fields")
-    expect(ctx, "R35.2", 1)
+    m = ctx.model
+    anc = _headers(ctx)
+    it, Rec, Raised = _make_interp(m)
+    ser = m.method(HTTP, "Headers", "__bytes__")
+    ctx.require(ser is not None, "Headers.__bytes__ vanished")
+    ser_where = (ser[0].rel, getattr(ser[1], "_qual", "__bytes__"), ser[1])
+    parser = _parser(ctx)
+    pfn = ctx.func(READ, parser)
+    ctx.functions.add(f"{ser[0].rel}::{ser_where[1]}")
+    seen = set()
+    for fields in SAMPLES2:
+        ctx.cells += 1
+        h = Rec("Headers", _bases=tuple(anc[1:]), _impl=(HTTP, "Headers"), fields=tuple(fields))
+
+        def fail(where, problem):
+            if problem not in seen:  # one finding per kind of deviation (the samples are ordered shortest-first)
+                seen.add(problem)
+                ctx.fail("R35.2", where, f"fields {list(fields)}: {problem}"[:300], "serialising header fields as HTTP/1 and parsing them back does not yield the same fields")
+
+        try:
+            block = it.method(h, "__bytes__")
+        except Raised as r:
+            fail(ser_where, f"bytes(headers) raises {r.name}")
+            continue
+        if not isinstance(block, bytes):
+            fail(ser_where, f"bytes(headers) returns a {type(block).__name__}")
+            continue
+        if h.fields != tuple(fields):
+            fail(ser_where, "bytes(headers) changes the fields")
+            continue
+        if block and not block.endswith(CRLF):
+            fail(ser_where, "the header block does not end with CRLF")
+            continue
+        lines = block.split(CRLF)[:-1] if block else []
+        if len(lines) != len(fields):
+            fail(ser_where, f"{len(fields)} field(s) are written as {len(lines)} CRLF-terminated line(s)")
+            continue
+        try:
+            back = it.call(READ, parser, list(lines))
+        except Raised as r:
+            fail((READ, parser, pfn), f"parsing the serialised line(s) raises {r.name}")
+            continue
+        got = getattr(back, "fields", None) if isinstance(back, Rec) and back.isa("Headers") else None
+        if got is None:
+            fail((READ, parser, pfn), f"the parser returns {back!r}, not a Headers")
+        elif tuple(tuple(f) for f in got) != tuple(fields):
+            i = next((i for i, (a, b) in enumerate(zip(got, fields)) if tuple(a) != b), min(len(got), len(fields)))
+            fail((READ, parser, pfn), f"field {i} comes back as {got[i] if i < len(got) else None!r}")
+        else:
+            ctx.ok("R35.2", f"{len(fields)} field(s) {[f[0].decode() for f in fields]} -> {len(block)} bytes -> {len(lines)} line(s) -> the same fields")
+    ctx.bounds.append(f"R35.2: {len(SAMPLES2)} sample field lists (empty list, empty value, values containing ':' / ': ' / blanks / tab / obs-text, repeated names in different case)")
+    ctx.trust("h11 ReceiveBuffer.maybe_extract_lines hands the header block to _read_headers split at CRLF, without the terminators")
+    if not any(f.rule == "R35.2" for f in ctx.findings):
+        ctx.expect_instances("R35.2", len(SAMPLES2))
 
 
 def check(ctx):
-    ctx.rule("R35.1", "_MultiDict: every comparison / de-duplication involving a key argument or a stored field name uses _kconv on both sides; __delitem__ and set_all keep non-matching fields; Headers._kconv lower-cases")
-    ctx.rule("R35.2", "Headers.__bytes__ and http1 _read_headers agree on 'name SEP value': one split at the delimiter SEP starts with, value stripped, (name, value) order")
+    ctx.rule("R35.1", "every key-taking Headers operation (in, [], get_all, del, set_all, []=) and every de-duplicating one (iter, len; thorough: keys, items), interpreted over realistic "
+             "names given as bytes and str, identifies stored name and key exactly when they are equal after lower-casing (key-normalisation table)")
+    ctx.rule("R35.2", "Headers.__bytes__ and http1 _read_headers, interpreted on sample lists of valid fields: the block is CRLF-framed, one line per field, and parses back to the same fields")
     ctx.rule("R35.3", "Headers, interpreted from its AST on every field list of a bounded universe, meets the post-conditions of a case-insensitive ordered multimap for every operation of the property")
     # each rule is guarded: a shape one rule does not model must not hide a violation found by another
     ctx.guard(r35_3, ctx)
@@ -807,6 +733,9 @@ MUTANTS = [
     Mutant("set-all-drops-other-fields", MD, "            else:\n                new_fields.append(field)\n", "", "R35.1"),
     Mutant("set-all-moves-other-fields-to-front", MD, "            else:\n                new_fields.append(field)\n", "            else:\n                new_fields.insert(0, field)\n", "R35.1"),
     Mutant("headers-kconv-identity", HTTP, "        # Headers are case-insensitive\n        return key.lower()\n", "        # Headers are case-insensitive\n        return key\n", "R35.1"),
+    Mutant("headers-kconv-merges-underscore-and-dash", HTTP, "        # Headers are case-insensitive\n        return key.lower()\n", "        # Headers are case-insensitive\n        return key.lower().replace(b\"_\", b\"-\")\n", "R35.1"),
+    Mutant("headers-kconv-folds-first-letter-only", HTTP, "        # Headers are case-insensitive\n        return key.lower()\n", "        # Headers are case-insensitive\n        return key[:1].lower() + key[1:]\n", "R35.1"),
+    Mutant("headers-delitem-forgets-bytes-conversion", HTTP, "        key = _always_bytes(key)\n        super().__delitem__(key)\n", "        super().__delitem__(key)\n", "R35.1"),
     # R35.3 (model equivalence by interpretation)
     Mutant("set-all-drops-empty-replacement-value", MD, "                if values:\n                    new_fields.append((field[0], values.pop(0)))\n",
            "                if values:\n                    value = values.pop(0)\n                    if value:\n                        new_fields.append((field[0], value))\n", "R35.3"),
@@ -826,4 +755,8 @@ MUTANTS = [
     Mutant("serialiser-pads-name", HTTP, "b\": \".join(field) for field in self.fields", "b\" : \".join(field) for field in self.fields", "R35.2"),
     Mutant("parser-swaps-name-value", READ, "ret.append((name, value))", "ret.append((value, name))", "R35.2"),
     Mutant("serialiser-lf-only", HTTP, "            return b\"\\r\\n\".join(b\": \".join(field) for field in self.fields) + b\"\\r\\n\"", "            return b\"\\n\".join(b\": \".join(field) for field in self.fields) + b\"\\n\"", "R35.2"),
+    Mutant("parser-lowercases-name", READ, "ret.append((name, value))", "ret.append((name.lower(), value))", "R35.2"),
+    Mutant("parser-splits-at-last-colon", READ, "name, value = line.split(b\":\", 1)", "name, value = line.rsplit(b\":\", 1)", "R35.2"),
+    Mutant("serialiser-skips-empty-values", HTTP, "b\": \".join(field) for field in self.fields", "b\": \".join(field) for field in self.fields if field[1]", "R35.2"),
+    Mutant("serialiser-omits-final-crlf", HTTP, "for field in self.fields) + b\"\\r\\n\"", "for field in self.fields)", "R35.2"),
 ]
